@@ -7,6 +7,7 @@
 
 #include "accessors.h"
 #include "dec_common.h"
+#include "locale_env.h"
 #include "framegen.h"
 #include "tecmp_oracle.h"
 
@@ -350,42 +351,12 @@ void famLengths(Ctx& c, long j)
 }
 constexpr long kFamLengths = 9 + 65 + 9 + 41 + 38;
 
-// a process that has installed a global C++ locale with digit grouping and a decimal comma (as std::locale("") does on a
-// de_DE / en_US system): the conversion owes the decimal wire values all the same
-struct GroupingPunct : std::numpunct<char>
-{
-    char do_thousands_sep() const override
-    {
-        return ',';
-    }
-    std::string do_grouping() const override
-    {
-        return "\3";
-    }
-    char do_decimal_point() const override
-    {
-        return ';';
-    }
-};
-struct ScopedGlobalLocale
-{
-    std::locale old;
-    ScopedGlobalLocale()
-        : old(std::locale::global(std::locale(std::locale::classic(), new GroupingPunct)))
-    {
-    }
-    ~ScopedGlobalLocale()
-    {
-        std::locale::global(old);
-    }
-};
-
 void randomCaseInner(Ctx& c, long idx);
 void randomCase(Ctx& c, long idx)
 {
     if (idx % 4 == 1)
     {
-        ScopedGlobalLocale g;
+        ScopedGlobalLocale g(static_cast<unsigned>(idx / 4));  // group sizes 1, 2, 3; separators , and '
         c.count("cases_under_a_global_locale_with_digit_grouping");
         randomCaseInner(c, idx);
         return;
